@@ -203,7 +203,9 @@ def deep_search(ctx):
 
 
 def replay(ctx, data):
-    v = data.get("input") or (data.get("details") or [{}])[-1].get("input")
+    v = sc.replay_input(data)
+    if v is None:
+        return 1
     g = dec(v["game"])
     res = impl.run_cases([dict(op=v.get("op", "solve"), game=v["game"], prune=v["prune"])])[0]
     print("implementation:", res)
